@@ -9,7 +9,8 @@ RULE = ("a case is (scheme, configuration from the supported grid, key from KeyG
         "keyword families and identifier layouts (big/little-endian counters, hashed, shared pool); plus every integer partition "
         "of N <= 9 (quick) / <= 16 under 3 configs (thorough) and the default configurations at their own boundaries; for 8 schemes (not SSE-2) a keyword contained in 2^16-1 / 2^16 / 2^16+1 "
         "documents (2^17+1 for the block-based CJJ14 schemes). Oracle: "
-        "Search(Setup(DB),Tok(w)) == DB[w] for every w (set for DP17), any exception on a valid input is a violation. "
+        "Search(Setup(DB),Tok(w)) == DB[w] for every w (set for DP17), once token-by-token and once as a batch (up to 8 tokens generated first, "
+        "searched in reverse order, the first token used a second time), any exception on a valid input is a violation. "
         "Non-trivial = the profile hits a boundary class (N=1, N=2^t, one list holding all 2^t postings, a list on a threshold, "
         "Pi2Lev medium/large case, DP17 L>1); distinct = distinct (scheme, config, sorted length profile, id layout).")
 ASSUMPTIONS = ["valid database = the quantifier of C01 (non-empty keywords without leading NUL within the scheme's limit, non-empty "
